@@ -776,7 +776,7 @@ def comment_features(tree):
     return F
 
 
-def layout_class(tree, stratum):
+def layout_class(tree, stratum, decl_info=None):
     """the syntactic class a C31 failure is attributed to (first match)"""
     F = comment_features(tree)
     if "LC:inside" in F:
@@ -785,6 +785,8 @@ def layout_class(tree, stratum):
         return "block-comment-inside-declaration"
     if "LC:same-line" in F or "BC:same-line" in F:
         return "comment-on-same-line-as-next-declaration"
+    if any(d.get("empty") for d in decl_info or []):
+        return "empty-declaration"          # a lone `;` at file scope
     if stratum.startswith("plain") or stratum == "shuffled-plain":
         return "plain-layout"
     return "irregular-whitespace"
